@@ -42,13 +42,16 @@ def interp_opacity(xsec, Tg, Pg, T, P, mode='linear', zero_corner=True):
     Documented exception: below both the minimum T and the minimum P the result is zero."""
     x = np.asarray(xsec, dtype=float)
     Tg = np.asarray(Tg, dtype=float)
-    lPg = np.log10(np.asarray(Pg, dtype=float))
-    lP = math.log10(P)
-    if zero_corner and T < Tg[0] and lP < lPg[0]:
+    Pg = np.asarray(Pg, dtype=float)
+    lPg = [math.log10(p_) for p_ in Pg]
+    # regions and cells are decided on the pressures themselves (a request on a node IS on the node, whatever the last
+    # digit of a logarithm); only the position inside the cell is measured in log10 P
+    if zero_corner and T < Tg[0] and P < Pg[0]:
         return np.zeros(x.shape[2:])
     t0, t1, Tc = bracket(Tg, T)
-    p0, p1, Pc = bracket(lPg, lP)
-    fp = (Pc - lPg[p0]) / (lPg[p1] - lPg[p0])
+    p0, p1, Pcl = bracket(Pg, P)
+    fp = (math.log10(Pcl) - lPg[p0]) / (lPg[p1] - lPg[p0])
+    fp = min(max(fp, 0.0), 1.0)
     a = x[p0, t0] + fp * (x[p1, t0] - x[p0, t0])      # at T_lo
     b = x[p0, t1] + fp * (x[p1, t1] - x[p0, t1])      # at T_hi
     if mode == 'linear':
@@ -66,8 +69,7 @@ def interp_opacity(xsec, Tg, Pg, T, P, mode='linear', zero_corner=True):
 def bracket_nodes(xsec, Tg, Pg, T, P):
     """min and max over the (up to four) bracketing nodes, m^2."""
     x = np.asarray(xsec, dtype=float)
-    lPg = np.log10(np.asarray(Pg, dtype=float))
     t0, t1, _ = bracket(Tg, T)
-    p0, p1, _ = bracket(lPg, math.log10(P))
+    p0, p1, _ = bracket(np.asarray(Pg, dtype=float), P)
     nodes = np.stack([x[p0, t0], x[p0, t1], x[p1, t0], x[p1, t1]])
     return nodes.min(axis=0) / 1e4, nodes.max(axis=0) / 1e4
